@@ -46,3 +46,7 @@ func VerifChunkerSettings(c *Chunker) (maxSize, minSize, minHeadingLevel int, ke
 	return c.config.MaxChunkSize, c.config.MinChunkSize, c.config.MinHeadingLevel,
 		c.boundaryDetector.config.KeepListsIntact, c.config.IDPrefix
 }
+
+// VerifContentToMarkdown exposes (*Chunk).contentToMarkdown: the chunk without its section
+// heading, as ChunkCollection.ToMarkdownWithOptions writes it inside a running section (C15).
+func VerifContentToMarkdown(c *Chunk, o MarkdownOptions) string { return c.contentToMarkdown(o) }
